@@ -458,7 +458,7 @@ func c11Child(idx int) {
 
 func init() {
 	register(&PropCheck{ID: "C11", Level: "exploration",
-		Rule:        "(a) every byte string up to length 3 (4 in the thorough tier) over a 15-symbol YAML-significant alphabet as workflow file, sub-workflow file and input file; (b) every single-point structural corruption of 8 seed workflows (each node replaced by each of 39 YAML shapes incl. every engine tag on scalar/map/list, each key removed, each key duplicated, each tag moved to its parent) and of a valid input document; (c) sub-workflow reference structures (depth 1-4, diamond, siblings, missing, sub-directory, non-string references, self/2-/3-cycles in a child process); a case is non-trivial when it parses or yields a distinct error class",
+		Rule:        "(a) every byte string up to length 3 (4 in the thorough tier) over a 15-symbol YAML-significant alphabet as workflow file, sub-workflow file and input file; (b) every single-point structural corruption of 8 seed workflows (each node replaced by each of 57 YAML shapes incl. every engine tag on scalar/map/list, root-only / truncated / dangling expressions, each key removed, each key duplicated, each tag moved to its parent) and of a valid input document; (c) sub-workflow reference structures (depth 1-4, diamond, siblings, shared across levels, missing, sub-directory, non-string references; in a child process each: self/2-/3-cycles, a loop file named like the main workflow key, YAML anchors containing an alias to themselves as workflow / input / sub-workflow); a case is non-trivial when it parses or yields a distinct error class",
 		Assumptions: []string{"finite alphabets and seeds only: the universal over all byte strings is not covered (random fuzzing is a different family and is not used)", "parsing uses the scripted deployer for the plugin schema probe", "a case that does not return within 30 s (90 s in the child) counts as an endless loop"},
 		Budget:      budget(170*time.Second, 25*time.Minute),
 		Units: func(tier string) []*Unit {
